@@ -164,11 +164,52 @@ impl Drop for Paged {
     }
 }
 
+/// a packed bit vector whose 64-bit words live in a guarded mapping (flush against the inaccessible page at
+/// the end or at the start); never dropped through the allocator
+struct PagedBits {
+    _map: Paged,
+    bits: std::mem::ManuallyDrop<vh::BinaryOctetVec>,
+}
+
+impl PagedBits {
+    fn new(words: &[u64], len: usize, place: u64) -> PagedBits {
+        let raw: Vec<u8> = words.iter().flat_map(|w| w.to_ne_bytes()).collect();
+        let mut map = Paged::new(&raw, place);
+        let ptr = map.slice().as_mut_ptr() as *mut u64;
+        assert_eq!(ptr as usize % 8, 0);
+        // the Vec is never grown, shrunk or freed: ManuallyDrop keeps the allocator away from the mapping
+        let v = unsafe { Vec::from_raw_parts(ptr, words.len(), words.len()) };
+        PagedBits { _map: map, bits: std::mem::ManuallyDrop::new(vh::BinaryOctetVec::new(v, len)) }
+    }
+}
+
 /// [op, isa, place, c, len, (nwords, words...) if op = 3, dest(len), src(len) if op in {0, 2}]
-/// op 0 add, 1 mul, 2 fma, 3 fma_binary; output: dest after
+/// op 0 add, 1 mul, 2 fma, 3 fma_binary; output: dest after.
+/// Mismatched operand lengths through the public dispatchers (each must refuse or stay inside both operands):
+/// [4|5, 4, place, c, dlen, slen, dest(dlen), src(slen)] (4 add_assign, 5 fused_addassign_mul_scalar),
+/// [6, 4, place, c, dlen, blen, nwords, words..., dest(dlen)] (fused_addassign_mul_scalar_binary)
 pub fn kg(a: &[u64]) -> Vec<u64> {
     let (op, isa, place, c, len) = (a[0], a[1], a[2], a[3], a[4] as usize);
     let sc = Octet::new(c as u8);
+    if op == 4 || op == 5 {
+        let slen = a[5] as usize;
+        let mut d = Paged::new(&b(&a[6..6 + len]), place);
+        let mut s = Paged::new(&b(&a[6 + len..6 + len + slen]), place);
+        if op == 4 {
+            vh::add_assign(d.slice(), s.slice());
+        } else {
+            vh::fused_addassign_mul_scalar(d.slice(), s.slice(), &sc);
+        }
+        return d.slice().iter().map(|&x| x as u64).collect();
+    }
+    if op == 6 {
+        let blen = a[5] as usize;
+        let nw = a[6] as usize;
+        let mut d = Paged::new(&b(&a[7 + nw..7 + nw + len]), place);
+        let pb = PagedBits::new(&a[7..7 + nw], blen, place);
+        vh::fused_addassign_mul_scalar_binary(d.slice(), &pb.bits, &sc);
+        return d.slice().iter().map(|&x| x as u64).collect();
+    }
     let mut rest = &a[5..];
     let words: Vec<u64> = if op == 3 {
         let nw = rest[0] as usize;
@@ -184,14 +225,12 @@ pub fn kg(a: &[u64]) -> Vec<u64> {
             let mut s = Paged::new(&b(&rest[len..2 * len]), place);
             if op == 0 {
                 if isa == 4 {
-                    let sv = s.slice().to_vec();
-                    vh::add_assign(d.slice(), &sv);
+                    vh::add_assign(d.slice(), s.slice());
                 } else {
                     vh::kernels::add_assign_with(isa_name(isa), d.slice(), s.slice());
                 }
             } else if isa == 4 {
-                let sv = s.slice().to_vec();
-                vh::fused_addassign_mul_scalar(d.slice(), &sv, &sc);
+                vh::fused_addassign_mul_scalar(d.slice(), s.slice(), &sc);
             } else {
                 vh::kernels::fma_with(isa_name(isa), d.slice(), s.slice(), &sc);
             }
@@ -204,11 +243,11 @@ pub fn kg(a: &[u64]) -> Vec<u64> {
             }
         }
         _ => {
-            let bits = vh::BinaryOctetVec::new(words, len);
+            let pb = PagedBits::new(&words, len, place);
             if isa == 4 {
-                vh::fused_addassign_mul_scalar_binary(d.slice(), &bits, &sc);
+                vh::fused_addassign_mul_scalar_binary(d.slice(), &pb.bits, &sc);
             } else {
-                vh::kernels::fma_binary_with(isa_name(isa), d.slice(), &bits, &sc);
+                vh::kernels::fma_binary_with(isa_name(isa), d.slice(), &pb.bits, &sc);
             }
         }
     }
